@@ -333,42 +333,45 @@ def audit_sources() -> list[str]:
 
 
 def audit_property_file(pid: str, workdir: Path) -> dict:
-    """Compile properties/<pid>.v, parse its Print Assumptions blocks."""
-    src = COQ / "properties" / f"{pid}.v"
-    res = {"file": str(src), "theorems": [], "ok": False, "log": ""}
-    if not src.exists():
+    """Compile properties/<pid>.v (and properties/<pid>_*.v), parse the Print Assumptions blocks."""
+    files = [COQ / "properties" / f"{pid}.v"] + sorted((COQ / "properties").glob(f"{pid}_*.v"))
+    res = {"file": ", ".join(str(f) for f in files), "theorems": [], "ok": False, "log": "", "declared": [], "examples": []}
+    if not files[0].exists():
         res["log"] = "missing property file"
         return res
     workdir.mkdir(parents=True, exist_ok=True)
-    tmp = workdir / f"{pid}_audit.v"
-    shutil.copy(src, tmp)
-    r = subprocess.run(["timeout", "900", "coqc", "-Q", str(COQ / "theories"), "LymphModel", tmp.name],
-                       cwd=workdir, capture_output=True, text=True)
-    res["log"] = (r.stdout + r.stderr)[-6000:]
-    if r.returncode != 0:
-        return res
-    text = strip_comments(src.read_text())
-    names = re.findall(r"^\s*Print Assumptions\s+([\w\.']+)\s*\.", text, flags=re.M)
-    declared = re.findall(r"^\s*(?:Theorem|Lemma|Corollary)\s+([\w']+)", text, flags=re.M)
-    examples = re.findall(r"^\s*Example\s+([\w']+)", text, flags=re.M)
-    blocks = re.split(r"(?=Closed under the global context|Axioms:)", r.stdout)
-    blocks = [b for b in blocks if b.startswith("Closed under") or b.startswith("Axioms:")]
-    ok = len(blocks) == len(names) and len(names) > 0
-    for nm, b in zip(names, blocks):
-        if b.startswith("Closed under"):
-            res["theorems"].append({"name": nm, "assumptions": []})
-        else:
-            axs = re.findall(r"^([\w\.']+)\s*:", b, flags=re.M)
-            res["theorems"].append({"name": nm, "assumptions": axs})
-            if not set(axs) <= ALLOWED_AXIOMS:
-                ok = False
-    missing = [d for d in declared if d not in names]
-    if missing:
-        ok = False
-        res["log"] += f"\nTheorems without Print Assumptions: {missing}"
-    res["declared"] = declared
-    res["examples"] = examples
-    res["ok"] = ok
+    ok_all = True
+    for src in files:
+        tmp = workdir / f"{src.stem}_audit.v"
+        shutil.copy(src, tmp)
+        r = subprocess.run(["timeout", "900", "coqc", "-Q", str(COQ / "theories"), "LymphModel", tmp.name],
+                           cwd=workdir, capture_output=True, text=True)
+        res["log"] += (r.stdout + r.stderr)[-4000:]
+        if r.returncode != 0:
+            return res
+        text = strip_comments(src.read_text())
+        names = re.findall(r"^\s*Print Assumptions\s+([\w\.']+)\s*\.", text, flags=re.M)
+        declared = re.findall(r"^\s*(?:Theorem|Lemma|Corollary)\s+([\w']+)", text, flags=re.M)
+        examples = re.findall(r"^\s*Example\s+([\w']+)", text, flags=re.M)
+        blocks = re.split(r"(?=Closed under the global context|Axioms:)", r.stdout)
+        blocks = [b for b in blocks if b.startswith("Closed under") or b.startswith("Axioms:")]
+        ok = len(blocks) == len(names) and len(names) > 0
+        for nm, b in zip(names, blocks):
+            if b.startswith("Closed under"):
+                res["theorems"].append({"name": nm, "assumptions": []})
+            else:
+                axs = re.findall(r"^([\w\.']+)\s*:", b, flags=re.M)
+                res["theorems"].append({"name": nm, "assumptions": axs})
+                if not set(axs) <= ALLOWED_AXIOMS:
+                    ok = False
+        missing = [d for d in declared if d not in names]
+        if missing:
+            ok = False
+            res["log"] += f"\nTheorems without Print Assumptions: {missing}"
+        res["declared"] += declared
+        res["examples"] += examples
+        ok_all = ok_all and ok
+    res["ok"] = ok_all
     return res
 
 
@@ -665,9 +668,11 @@ def run_standard(ctx: Ctx, cases: list, impl_fn, coq_expr_fn, compare_fn, import
 
     _, bad = failing(cases, tag)
     seen_sigs = []
+    attempts = 0
     for case, mm in bad:
-        if len(seen_sigs) >= max_reports:
+        if len(seen_sigs) >= max_reports or attempts >= max_reports:
             break
+        attempts += 1
         small = case
         if candidates_fn is not None:
             small = shrink(ctx, case, candidates_fn, lambda cs: failing(cs, tag + "-shrink")[0])
